@@ -314,14 +314,24 @@ PROFILES = {"boundary": g_boundary, "fillfree": g_fillfree, "span": g_span, "ali
             "heaps": g_heaps, "malformed": g_malformed, "huge": g_huge}
 
 
-def make_trace(profile, seed, nops=300, options=None):
+def with_clock(lines, rng):
+    """sprinkle virtual-clock advances (op CLK <ms>) so that delayed purges expire during the trace"""
+    out = []
+    for l in lines:
+        out.append(l)
+        if rng.random() < 0.06:
+            out.append("CLK %d" % rng.choice([1, 5, 11, 50, 101, 1001]))
+    return out
+
+
+def make_trace(profile, seed, nops=300, options=None, clock=False):
     rng = random.Random((hash(profile) & 0xFFFF) * 1000003 + seed)
     rng = random.Random("%s-%d" % (profile, seed))
     t = T(rng)
     for k, v in (options or []):
         t.emit("OPT", k, v)
     PROFILES[profile](t, nops)
-    return t.lines
+    return with_clock(t.lines, rng) if clock else t.lines
 
 
 if __name__ == "__main__":
